@@ -193,17 +193,26 @@ class L3:
     # ---- shapes
     def s_binary(self):
         byte = self.rp["byte"]
-        mn = "add" if self.rp.get("nt") == "binary_arithmetic" else "xor"
-        a, b = self.text(0), self.text(1)
-        line = f"{mn} {a},{b}"
-        r0 = dict(self.regs)
-        d, s = self.old(0, r0), self.old(1, r0)
-        fn = ("byte_" if byte else "word_") + mn
-        f = ask(self.tool, [f"l1b {fn} {r0['flag']} {d} {s}"])[0]["observed"]
-        exp, em = dict(r0), {}
-        exp["flag"] = f["flag"]
-        self.write(0, f["ret"], exp, em)
-        return self.finish(line, exp, em)
+        # the verifier's counterexample is over an arbitrary operation (probe); natively real mnemonics stand in for it:
+        # a non-commutative one first (operand order), TEST for the write-back of the first operand
+        mns = ["sub", "cmp", "add"] if self.rp.get("nt") == "binary_arithmetic" else ["test", "xor", "and"]
+        first = None
+        for mn in mns:
+            self.labels = []
+            a, b = self.text(0), self.text(1)
+            line = f"{mn} {a},{b}"
+            r0 = dict(self.regs)
+            d, s = self.old(0, r0), self.old(1, r0)
+            fn = ("byte_" if byte else "word_") + mn
+            f = ask(self.tool, [f"l1b {fn} {r0['flag']} {d} {s}"])[0]["observed"]
+            exp, em = dict(r0), {}
+            exp["flag"] = f["flag"]
+            self.write(0, f["ret"], exp, em)
+            res = self.finish(line, exp, em)
+            if res["confirmed"]:
+                return res
+            first = first or res
+        return first
 
     def s_shift(self):
         byte = self.rp["byte"]
